@@ -339,6 +339,16 @@ def run(check, mirror, tier):
     ops.jobs_for(check, mirror, rb, crate_fe, None, fv_.Universe(mirror), jobs, tier, KNOWN_PRED, select={"function_positional_job"})
     run_parallel(check, jobs)
 
+    # --- numeric aggregates over lists that mix numbers and nulls at any position: no panic (the obligations C02 decides: a panic on any path is a
+    # counterexample there as well; they are run here under this property's name because "never a crash" is this property's statement)
+    from checks import C02 as _c02
+    saved = getattr(check, "only", None)
+    agg = ["finite/%s" % f for f in _c02.BIFL]
+    check.only = [a for a in agg if saved is None or any(s_ in "%s/M/%s" % (check.pid, a) for s_ in saved)]
+    if check.only:
+        _c02.run(check, mirror, tier)
+    check.only = saved
+
     # --- K: the lexer's escape decoding never panics (the harnesses of C06 assert the denoted scalar; a panic fails them too) -----------
     from checks import C06 as c06
     kf = prepare_k_file(check, mirror, "parser_lexer.rs")
